@@ -189,6 +189,16 @@ func init() {
 			a.mayPanic(st, "nilderef", pos, Not(Eq(args[0], "VNil")), "")
 			return []Term{a.tr.freshConst("errmsg", "String")}
 		},
+		"(marshaler.HashMap).MarshalHashMap": func(a *Act, st *State, callee *ssa.Function, args []Term, pos token.Pos) []Term {
+			tr := a.tr
+			a.mayPanic(st, "nilderef", pos, Not(Eq(args[0], "VNil")), "")
+			v, e := tr.freshConst("marshalled", "Val"), tr.freshConst("marshal_err", "Val")
+			if hm := tr.eng.namedType("types", "HashMap"); hm != nil {
+				tr.assume(Implies(st.reach, Or(Not(Eq(e, "VNil")), tr.eng.sorts.isCtor(hm, v))), "marshaler.HashMap contract: MarshalHashMap returns a types.HashMap or an error")
+			}
+			a.assumeWF(st, types.NewInterfaceType(nil, nil), v, 1)
+			return []Term{v, e}
+		},
 		"time.Until": func(a *Act, st *State, callee *ssa.Function, args []Term, pos token.Pos) []Term {
 			return []Term{a.tr.freshConst("dur", "Int")}
 		},
